@@ -421,7 +421,13 @@ func runC20(c *h.Ctx, idx int, events bool) {
 	var refMu sync.Mutex
 	var refEvents []fsnotify.Event
 	if events {
-		ref, _ = fsnotify.NewWatcher()
+		var rerr error
+		ref, rerr = fsnotify.NewWatcher()
+		if rerr != nil {
+			// (the machine has run out of inotify instances: several checks running side by side)
+			c.Inconclusive("the reference observer could not be created: " + rerr.Error())
+			return
+		}
 		defer ref.Close()
 		for _, p := range sel {
 			ref.Add(real + "/" + p)
